@@ -282,8 +282,8 @@ def last_assignment_in(f, name, before):
     return last_assignment(name, f, before)
 
 
-def run(ctx):
-    chk = Check('C07', ctx)
+def run(ctx, host=None):
+    chk = host.sub('C07') if host is not None else Check('C07', ctx)
     prog, K, E = ctx.prog, ctx.kinds, ctx.effects
     R1 = chk.rule('C07.R1', 'PackedObjectReader.seek: bounds checks (>= 0, <= length) dominate the move of the pack handle, per whence value', 3)
     R2 = chk.rule('C07.R2', 'seek returns the new absolute position (per whence value; decompresser returns its position)', 4)
